@@ -253,7 +253,9 @@ def cmd_ids(ids):
             continue
         dst = os.path.join(scratch, "repo")
         subprocess.check_call(["rsync", "-a", "--delete", "--exclude", "target", "--exclude", ".git", "/repo/", dst + "/"])
-        apply(dst, m)
+        if not apply(dst, m):
+            print("%s %-28s %-12s stale-plan (the line is no longer there)" % (m["id"], m["file"].split("/")[-1] + ":" + str(m["line"]), m["op"]), flush=True)
+            continue
         env = dict(os.environ, QBV_REPO=dst, QBV_EVIDENCE_DIR=os.path.join(scratch, "evidence"))
         r = subprocess.run([os.path.join(VERIF, "check"), "all", "quick"], cwd=VERIF, env=env, stdout=subprocess.PIPE, stderr=subprocess.STDOUT, text=True)
         keys = sorted({x.group(1) for x in re.finditer(r": C\d+\.[a-z] \[([^\]]+)\]", r.stdout)})
